@@ -858,11 +858,15 @@ func runTask(f lib.Flags, res *lib.Result, task chainTask, only *replay) {
 				case r.hung:
 					violate("store-hangs:"+tc.Name, "offering the block does not return: "+tc.Detail, rp)
 				case r.panicked:
-					// Not stored, but not a clean rejection either: juno dereferences a nil field that the
-					// tampered variant needs (e.g. Declare version 1 -> 2 without CompiledClassHash, a
-					// missing L1_GAS resource bound). Recorded in the histogram and the notes; the database
-					// check below still applies.
+					// Not stored, but not a rejection either: sync does not recover, the node dies.
 					res.Hit("rejected-by-panic:" + tc.Name)
+					rp.Note = trunc(r.stack, 1200)
+					if riskyCase(tc.Name) && strings.Contains(r.err.Error(), "nil pointer dereference") {
+						// the one known cause: a field the (tampered) version needs is absent
+						violate(panicSig, fmt.Sprintf("%s (%s; block %d, format %s, backend %s): %v", panicWhat, tc.Detail, pos, format, backend, r.err), rp)
+					} else {
+						violate("store-panics:"+tc.Name, fmt.Sprintf("SanityCheckNewHeight/Store panics on a tampered block (%s, backend %s): %v", tc.Detail, backend, r.err), rp)
+					}
 				case r.err == nil && tc.ObserveOnly:
 					res.Hit("observed-accepted:" + tc.Name)
 				case r.err == nil && !tc.MustReject:
